@@ -24,6 +24,11 @@ use serde_json::{json, Map, Value};
 
 pub const VERIF_DIR: &str = "/verif";
 
+/// where evidence and replay files go (overridable for development runs that must not touch the committed evidence)
+pub fn out_dir() -> String {
+    std::env::var("RMC_OUT_DIR").unwrap_or_else(|_| VERIF_DIR.to_string())
+}
+
 #[derive(Copy, Clone, Debug, PartialEq, Eq)]
 pub enum Tier {
     Quick,
@@ -380,7 +385,7 @@ pub fn finish(run: &Run, acc: Acc, summary: Summary) -> i32 {
         }
         unknown_total += count;
         exit = 1;
-        let dir = PathBuf::from(format!("{VERIF_DIR}/replays/{}", run.prop));
+        let dir = PathBuf::from(format!("{}/replays/{}", out_dir(), run.prop));
         let _ = fs::create_dir_all(&dir);
         for v in list {
             let name = format!(
@@ -452,7 +457,7 @@ pub fn finish(run: &Run, acc: Acc, summary: Summary) -> i32 {
         "wall_s": run.start.elapsed().as_secs_f64(),
         "violations": unknown_total,
     });
-    let dir = format!("{VERIF_DIR}/evidence");
+    let dir = format!("{}/evidence", out_dir());
     let _ = fs::create_dir_all(&dir);
     let path = format!("{dir}/{}.json", run.prop);
     if let Err(e) = fs::write(&path, serde_json::to_string_pretty(&ev).unwrap() + "\n") {
